@@ -218,6 +218,9 @@ func (s *Solver) define(root *term.Term) {
 	}
 }
 
+// Predefine emits the definitions of t in the current frame.
+func (s *Solver) Predefine(t *term.Term) { s.ref(t) }
+
 func (s *Solver) Assert(t *term.Term) {
 	if t.W != 0 {
 		panic("smt: assert of non-bool")
@@ -316,9 +319,15 @@ func (s *Solver) Check() Result {
 // CheckWith checks satisfiability of the current stack plus extra, leaving
 // the stack unchanged.
 func (s *Solver) CheckWith(extra ...*term.Term) Result {
+	// define the terms in the current frame (they stay available to later
+	// queries of this frame), assert them in a scratch frame
+	refs := make([]string, len(extra))
+	for i, e := range extra {
+		refs[i] = s.ref(e)
+	}
 	s.Push()
-	for _, e := range extra {
-		s.Assert(e)
+	for _, r := range refs {
+		s.send("(assert " + r + ")")
 	}
 	r := s.Check()
 	s.Pop()
